@@ -441,59 +441,33 @@ let mqr_case (f : string array) : string =
        | None -> Printf.sprintf "LOCKSTEP-OK %d labels" (List.length labels))
 
 (* ---------------- the receive calls of Server issued one after the other (su) ---------------- *)
-(* su <u|t> <ops>: one receiver (index 0) of the queue model; every call runs to its return before the next operation:
-   a call that finds nothing blocks; a timed call then returns by Tick T / Timeout / Resume ("full"), a blocking one is
-   reported as `hang` and released by one Unblock of the harness's own. *)
+(* su <u|t> <ops>: the extracted `su_run` of Conc/ServerApi.v (one receiver of the queue model; every call runs to its
+   return before the next operation; proved equal to the FIFO reading `su_spec` for every script: Props/C17Api.v).
+   Model time unit = 0.1 ms. Only parsing and printing happen here. *)
 let su_case (f : string array) : string =
-  let s = ref (Model.mq_init (nat_of_int 1)) in
-  let z = nat_of_int 0 in
-  let st l = match Model.mq_step true !s l with Some s' -> s := s'; true | None -> false in
-  let idle () = List.nth !s.Model.rs 0 = Model.Idle in
-  let out = ref [] in
-  (* runs a call label; returns `Some result` when the call has returned (R<k> | tok), None while it is blocked *)
-  let call l =
-    let g = List.length !s.Model.got in
-    ignore (st l);
-    if idle () then begin
-      let g' = List.length !s.Model.got in
-      Some (if g' > g then Printf.sprintf "R%d" (nat_to_int (List.nth !s.Model.got (g' - 1))) else "tok")
-    end else None in
-  let finish () =
-    (* the blocked call resumes until it has returned *)
-    let g = List.length !s.Model.got in
-    let n = ref 0 in
-    while not (idle ()) && !n < 4 do ignore (st (Model.Resume z)); incr n done;
-    let g' = List.length !s.Model.got in
-    if g' > g then Printf.sprintf "R%d" (nat_to_int (List.nth !s.Model.got (g' - 1))) else "tok" in
-  List.iter (fun op ->
-      let arg () = String.sub op 1 (String.length op - 1) in
-      if op = "u" then ignore (st (Model.Unblock None))
-      else if op.[0] = 'q' then ignore (st (Model.Push (nat_of_int (int_of_string (arg ())), None)))
-      else if op = "y" then
-        (match call (Model.CallTry z) with
-         | Some "tok" | None -> out := "y:N" :: !out
-         | Some r -> out := ("y:" ^ r) :: !out)
-      else if op.[0] = 't' then begin
-        let ms = int_of_string (arg ()) in
-        match call (Model.CallTimed (z, nat_of_int (10 * ms))) with
-        | Some "tok" -> out := (Printf.sprintf "t%d:N:fast" ms) :: !out
-        | Some r -> out := (Printf.sprintf "t%d:%s:fast" ms r) :: !out
-        | None ->
-            ignore (st (Model.Tick (nat_of_int (10 * ms))));
-            ignore (st (Model.Timeout z));
-            let r = finish () in
-            out := (Printf.sprintf "t%d:%s:full" ms (if r = "tok" then "N" else r)) :: !out
-      end
-      else if op = "r" || op = "i" then
-        (match call (Model.CallPop z) with
-         | Some "tok" -> out := (op ^ ":E") :: !out
-         | Some r -> out := (op ^ ":" ^ r) :: !out
-         | None ->
-             out := (op ^ ":hang") :: !out;
-             ignore (st (Model.Unblock (Some z)));
-             ignore (finish ()))) (String.split_on_char ',' f.(2));
-  if not (idle ()) then "MODEL-STUCK" else
-  if !out = [] then "-" else String.concat " " (List.rev !out)
+  let ops = List.filter (fun o -> o <> "") (String.split_on_char ',' f.(2)) in
+  let arg o = int_of_string (String.sub o 1 (String.length o - 1)) in
+  let mops = List.map (fun o ->
+      if o = "u" then Model.SuU
+      else if o = "y" then Model.SuY
+      else if o = "r" || o = "i" then Model.SuR
+      else if o.[0] = 'q' then Model.SuQ (nat_of_int (arg o))
+      else if o.[0] = 't' then Model.SuT (nat_of_int (10 * arg o))
+      else failwith ("su op " ^ o)) ops in
+  match Model.su_run mops with
+  | None -> "MODEL-STUCK"
+  | Some res ->
+      let recvs = List.filter (fun o -> o = "y" || o = "r" || o = "i" || o.[0] = 't') ops in
+      if List.length recvs <> List.length res then "MODEL-RESULT-COUNT" else
+      let one o r =
+        let v = match r with
+          | Model.SrVal k -> Printf.sprintf "R%d" (nat_to_int k)
+          | Model.SrNone _ -> "N" | Model.SrErr -> "E" | Model.SrHang -> "hang" in
+        if o.[0] = 't' then
+          Printf.sprintf "%s:%s:%s" o v (match r with Model.SrNone false -> "full" | _ -> "fast")
+        else Printf.sprintf "%s:%s" o v in
+      let out = List.map2 one recvs res in
+      if out = [] then "-" else String.concat " " out
 
 (* ---------------- lock-step replay of a recorded trace of the real writer chain (sws) ---------------- *)
 (* swr <labels> <stream hex> <pend>      labels: N | W<i>:<hex> | F<i> | D<i>     pend: name/op,.. (op = w<i>:<hex> | f<i> | d<i>)
@@ -543,6 +517,20 @@ let swr_case (f : string array) : string =
                        bad := Some (Printf.sprintf "%s never completed %s, which is enabled in the model (the chain stalled)" name op)
                    | _ -> ())
               | None -> ()) (String.split_on_char ',' f.(3));
+        (* f.(4) = live flag of the generator, f.(5) = n|prog|prog|..: the script itself. The extracted checker
+           `sw_system_ok_b` (sound for system_ok: Props/C06Check.v) decides whether the script is a well-ordered system;
+           such a system can never get stuck (c06_checked_scripts_never_stuck): nothing may be left blocked *)
+        if !bad = None && Array.length f > 5 then begin
+          match String.split_on_char '|' f.(5) with
+          | n :: ps ->
+              let prog p = List.filter_map lab_of (List.filter (fun o -> o <> "") (String.split_on_char ',' p)) in
+              let ok = Model.sw_system_ok_b (nat_of_int (int_of_string n)) (List.map prog ps) in
+              if f.(4) = "1" && not ok then
+                bad := Some "the generator marks this script as one that can always make progress, the checker system_ok_b rejects it"
+              else if ok && f.(3) <> "-" then
+                bad := Some (Printf.sprintf "a well-ordered system (system_ok_b) is blocked for ever at %s" f.(3))
+          | [] -> ()
+        end;
         match !bad with
         | Some why -> "LOCKSTEP-FAIL at the end: " ^ why
         | None -> Printf.sprintf "LOCKSTEP-OK %d labels" (List.length labels)
